@@ -35,6 +35,18 @@ def varianceVec (M : Mat) (psi : Vec) : GQ :=
 def varianceDensity (M rho : Mat) : GQ :=
   expectationDensity (matMul M M) rho - expectationDensity M rho * expectationDensity M rho
 
+/-- `is_hermitian(sparse matrix)`: `difference = operator - operator.getH()`,
+`discrepancy = max(abs(difference.data))` (0.0 when nothing is stored), `discrepancy < EQ_TOLERANCE`.
+The stored positions of the difference are among the positions of the matrix and their transposes;
+`abs(d) < tol` is decided exactly as `|d|² < tol²`. -/
+def isHermitianMat (tol : Rat) (M : Mat) : Bool :=
+  (M.entries.flatMap fun e => [(e.1, e.2.1), (e.2.1, e.1)]).all fun p =>
+    GQ.isSmall tol (M.get p.1 p.2 - GQ.conj (M.get p.2 p.1))
+
+/-- the routine `sparse_eigenspectrum` hands the dense matrix to: `true` = `numpy.linalg.eigvalsh`
+(Hermitian), `false` = `numpy.linalg.eigvals` -/
+def eigenspectrumUsesEigvalsh (tol : Rat) (M : Mat) : Bool := isHermitianMat tol M
+
 end C06
 end Model
 end OFV
